@@ -15,6 +15,9 @@ CHECKS = {
  "C03": ("exhaustive input enumeration of the real decoders/verify (lengths x headers x patterns, single fields, end-of-buffer windows of the streaming decoder) under catch_unwind in an overflow-checked build",
          "Bounded exhaustive exploration of the real code: every length x header x 6 body patterns for all six decoders, every value of selected key fields, and every (alignment, distance-to-end, last/non-last, tail) configuration of the signature decoder at production size, each execution required not to unwind. Complete for the length/header guards and for the decoder's buffer-end automaton; bounded for bodies.",
          "Assumes the decoder's behaviour on a coefficient depends only on cursor alignment, bits left, last/non-last and the local window (argued from the code). Build: opt-level 3 with overflow-checks and debug-assertions on.", "3/C03"),
+ "C04": ("enumeration of a seed window x both variants through the real keygen with exact integer oracles (NTRU equation, invertibility, public key) and a dense Gram-Schmidt reference for the tree leaves",
+         "Bounded exhaustive over an enumerated seed window (plus the seeds that exercise key generation's rejection branches): f*G-g*F = q exactly over Z, f invertible mod q at all n roots, h*f = g mod q for the encoded key, encoded polynomials equal the signing basis, every leaf in [sigma_min, sigma_max]; on a subset of keys the leaves equal sigma/||b~_k|| of an independent dense 2n x 2n Gram-Schmidt.",
+         "Seeds outside the window are not covered. Dense Gram-Schmidt in f64 (tolerance 1e-9, observed 1e-14).", "3/C04"),
  "C05": ("exhaustive per-field codec enumeration (all representable values of every field position class) plus enumeration of a seed window x messages x signer environments with round-trip and sign-after-decode oracles",
          "Codec bijectivity is complete per field (data-independent loops); key generation is covered on an enumerated seed window that contains the seeds on which keys were found to leave the encodable range; every key's representability is read through the hook.",
          "Seeds outside the window are not covered. Sign-after-decode uses fixed ChaCha streams and the production RNG behind a draw budget.", "3/C05"),
@@ -24,6 +27,9 @@ CHECKS = {
  "C07": ("exhaustive enumeration of all byte strings <= 3 bytes (n <= 3) plus end-of-buffer windows and run-length tokens at production size, each compared with a bit-level reference codec",
          "Small-scope complete model check of compress/decompress against bit-level Algorithms 17/18 (50.5M strings, every one compared), an encoder alphabet with every budget, and complete enumeration of buffer-end windows and unary-run boundaries at n = 512/1024.",
          "Reference codec is our own transcription of Algorithms 17/18 (validated against PQClean comp_encode/comp_decode at setup). Transfer from small scope to production size rests on the branch structure of the codec (cursor mod 8, bits left, last/non-last, run length).", "3/C07"),
+ "C08": ("exhaustive enumeration of all sign-call histories up to depth 3 (thorough 4) over keys x messages x {two long-lived threads, fresh threads}, executed one call at a time on real OS threads with the production RNG, plus child processes; salts compared across the whole run",
+         "History model checking at call granularity: every sequence of (operation, thread) up to the depth bound is executed against the real signer; after every call the new salt must differ from all salts seen (same thread, other thread, fresh thread, other process) and repeated (key,message) must give different signatures; no salt byte position is constant.",
+         "Salt values are not owned by the harness (production RNG by necessity); verdict deterministic up to a 2^-100 event. Intra-call preemption not explored.", "3/C08"),
  "C09": ("exhaustive exploration of all per-iteration answer sequences (depth 2, thorough 3) of the real sampler under a role-aware byte environment against the specification's SamplerZ; threshold extraction by binary search on the real decision functions and exact assembly of the output law (probabilistic model checking)",
          "Building blocks on generating sets (all RCDT thresholds from both sides, all u with <= 2 non-zero bytes, ApproxExp grid bit-exact, BerExp byte patterns at every first-difference position); every answer sequence up to the depth bound replayed against the reference; the exact output law from extracted thresholds within 2^-40 total variation of the ideal Gaussian on a (r, sigma') grid.",
          "Uniformity of the random bytes is the premise. (mu, sigma') are gridded. FP evaluation order of x follows the reference C code; comparison bytes keep a 2^16 margin.", "3/C09"),
@@ -33,9 +39,15 @@ CHECKS = {
  "C12": ("complete enumeration of all 12289^2 operand pairs, all residues and all 65536 i16 inputs against integer arithmetic",
          "Complete finite-domain check: every ordered pair for add/sub/mul/multiply, every residue for neg/inverse/balanced/value, every i16 for Felt::new, raw inner representation compared with i64 rem_euclid.",
          "Reference is i64 arithmetic. Nothing else assumed.", "3/C12"),
+ "C13": ("enumeration of the generating set of the FFT circuit: all scaled basis vectors, all basis pairs (thorough) and rounding-maximising corner families for every n, against exact integer products with the property's own 2^-30 relative threshold",
+         "Generating-set check: ifft(fft(M X^i)), ifft(fft(2^14 X^i) .* fft(2^10 X^j)) for all pairs, split/merge identities, and Walsh/extreme sign patterns at full magnitude against the exact i128 negacyclic product; worst observed error is 2^-20 of the allowance.",
+         "Linearity up to rounding (standard error model) extends the basis to all real inputs; non-basis inputs other than the corner families are covered only through that model.", "3/C13"),
  "C14": ("exhaustive enumeration of all strings of length <= 2 (thorough) and block-boundary lengths x 256 fill bytes against an independent Keccak + Algorithm 3, with forced hits on the rejection threshold",
          "Bounded exhaustive: every short string and every absorb-boundary length compared coefficient by coefficient with our own SHAKE-256 + Algorithm 3; the evidence counts how often chunks equal to 61444/61445/65535 and a rejection right before the last coefficient occurred (must be > 0).",
          "Own Keccak validated against PQClean fips202.c at setup. Longer messages covered only through SHAKE's block structure.", "3/C14"),
+ "C15": ("exhaustive enumeration of histories around a keygen call: fresh child process after every prefix (depth 1, thorough 2) of other operations incl. the other variant, same/other/fresh thread, call-level interleavings of two thread programs; all 256 single-bit seed flips",
+         "History model checking with a differential oracle (state reached from the initial state vs state reached from elsewhere): the key bytes of keygen(seed) in every explored history equal those of a fresh process; every seed bit flip changes both secret and public key.",
+         "Seeds outside the enumerated ones not covered; the target seeds include one whose key has a large f/g coefficient (vacuity guard). Call-level interleavings only.", "3/C15"),
  "C17": ("exhaustive enumeration of a multiplier alphabet k applied to real (ntru_gen) and structured (f,g,F0,G0) for every n in {2..1024}, both reductions run on each input and compared, exact integer oracles",
          "Bounded exhaustive: for each base quadruple every k in the alphabet; oracles: i32 and big-integer versions identical, f*G'-g*F' preserved exactly (i128), idempotence, exact multiple-of-(f,g) certificate; degenerate inputs (0,0), (1,0), already reduced.",
          "Inputs outside the alphabet are not covered; coefficients are kept below 2^24 as the property states.", "3/C17"),
